@@ -804,7 +804,7 @@ def selftest():
 
 def subchecks(tier):
     return [
-        Sub("exact", body, strategy=cases("posterior"), quick=1600, thorough=40000, pretags=pretags),
-        Sub("pairing", body, strategy=cases("perturbed"), quick=1600, thorough=40000, pretags=pretags),
+        Sub("exact", body, strategy=cases("posterior"), quick=1600, thorough=120000, pretags=pretags),
+        Sub("pairing", body, strategy=cases("perturbed"), quick=1600, thorough=120000, pretags=pretags),
         Sub("grid", body, enumerate=grid, exhaustive=True, pretags=pretags),
     ]
